@@ -310,9 +310,27 @@ func c11Run(fs *Facts) {
 			break
 		}
 		w := c11Swamp + ":" + itoa(sw.Line(fn)) + " (" + n + ")"
+		// the selection pass's result: whatever variable receives ShiftExpired / ShiftMatching (names do not matter)
+		selVar, selPred := "", ""
+		ast.Inspect(fn, func(x ast.Node) bool {
+			if as, ok := x.(*ast.AssignStmt); ok && len(as.Rhs) == 1 && len(as.Lhs) >= 1 {
+				if c, ok := as.Rhs[0].(*ast.CallExpr); ok {
+					cf := sw.Str(c.Fun)
+					if strings.HasSuffix(cf, ".ShiftExpired") || strings.HasSuffix(cf, ".ShiftMatching") {
+						if id, ok := as.Lhs[0].(*ast.Ident); ok {
+							selVar = id.Name
+						}
+						if strings.HasSuffix(cf, ".ShiftMatching") && len(c.Args) >= 2 {
+							selPred = sw.Str(c.Args[1])
+						}
+					}
+				}
+			}
+			return true
+		})
 		var loop *ast.RangeStmt
 		ast.Inspect(fn, func(x ast.Node) bool {
-			if r, ok := x.(*ast.RangeStmt); ok && sw.Str(r.X) == "shiftedTreasures" {
+			if r, ok := x.(*ast.RangeStmt); ok && selVar != "" && sw.Str(r.X) == selVar {
 				loop = r
 			}
 			return true
@@ -323,11 +341,31 @@ func c11Run(fs *Facts) {
 		}
 		plain := sw.Calls(loop, "s.deleteHandler")
 		checked := sw.Calls(loop, "s.deleteHandlerIf")
-		okShape := len(plain) == 0 && len(checked) == 1 && len(checked[0].Args) == 3 && sw.Str(checked[0].Args[2]) != "nil"
+		okShape := len(plain) == 0 && len(checked) == 1 && len(checked[0].Args) == 3
+		if okShape {
+			// what is re-checked has to be the selection criterion itself: the very predicate that was handed to
+			// ShiftMatching, or (ShiftExpired) a literal that tests the expiration time
+			arg := checked[0].Args[2]
+			switch {
+			case sw.Str(arg) == "nil":
+				okShape = false
+			case selPred != "":
+				if sw.Str(arg) != selPred {
+					rv, rvWhere = Unknown, c11Swamp+":"+itoa(sw.Line(arg))+" ("+n+": re-checks something else than the selection predicate)"
+				}
+			default:
+				if fl, isLit := arg.(*ast.FuncLit); !isLit || !strings.Contains(sw.Str(fl), "GetExpirationTime()") {
+					rv, rvWhere = Unknown, c11Swamp+":"+itoa(sw.Line(arg))+" ("+n+": the re-check does not look at the expiration time)"
+				}
+			}
+			if rv == Unknown {
+				break
+			}
+		}
 		// the function must not return the selection pass's copies
 		returnsSel := false
 		ast.Inspect(fn, func(x ast.Node) bool {
-			if r, ok := x.(*ast.ReturnStmt); ok && len(r.Results) > 0 && sw.Str(r.Results[0]) == "shiftedTreasures" {
+			if r, ok := x.(*ast.ReturnStmt); ok && len(r.Results) > 0 && sw.Str(r.Results[0]) == selVar {
 				returnsSel = true
 			}
 			return true
